@@ -1,7 +1,7 @@
 import Pds.Proofs.KernelTie.Clear
 /-!
 # C19 — tie by translation: `clear` / `is_empty` as translated from the source are the model's
-(cuckoo filter, reservoir sampler, HyperLogLog, count-min sketch; `is_empty` of the t-digest).  The C19
+(cuckoo, quotient and Bloom filter, reservoir sampler, HyperLogLog, count-min sketch; `is_empty` of the t-digest).  The C19
 theorems `*_clear_eq_new` are about these model functions.
 -/
 namespace Pds.Tie.C19
@@ -21,5 +21,11 @@ theorem cms_clear_translated (s : Cms.St) (h : s.w * s.d < 2 ^ 64) :
     cms_clear s.w s.d s.table.toList = Flow.cont (Cms.clear s).table.toList := cms_clear_eq s h
 theorem td_is_empty_translated {α : Type} (s : TDigest.St α) : td_is_empty s.centroids s.backlog = TDigest.isEmpty s :=
   td_is_empty_eq s
+theorem qf_clear_translated {N : Nat} (t : Quotient.St N) :
+    qf_clear (occL t) (contL t) (shiftL t) (remL t) t.n =
+      Flow.cont (occL (Quotient.clear t), contL (Quotient.clear t), shiftL (Quotient.clear t), remL (Quotient.clear t),
+        (Quotient.clear t).n) := qf_clear_eq t
+theorem bloom_clear_translated (s : Bloom.St) : bloom_clear s.bits.toList = Flow.cont (Bloom.clear s).bits.toList :=
+  bloom_clear_eq s
 
 end Pds.Tie.C19
